@@ -33,6 +33,10 @@ def run(ctx):
                 nr = 0
             for i in range((6 if thorough else 3) if part in ("binary", "algebra", "exp", "unary") else 1):
                 jobs.append({"part": part, "mode": mode, "nrandom": nr, "shard": i})
+    # programs of extension-field operations compiled with gnark's real builders (R1CS, SCS): registers used again after they were
+    # operands, a register given as compile-time constant
+    for i in range(6 if thorough else 2):
+        jobs.append({"part": "real", "mode": "plain", "nrandom": 40 if thorough else 12, "shard": 40 + i})
 
     def one(j):
         return ctx.run_driver("c08", j, tag="%s-%s-%d" % (j["part"], j["mode"], j["shard"]), timeout=3000)
